@@ -52,6 +52,7 @@ def gen(rng, tier):
     rng.shuffle(deaths)
     deaths = deaths[:rng.randint(1, n_pilots)]
     ops = list()
+    failed_before = list()
     rounds = rng.randint(1, 4)
     for r in range(rounds + len(deaths)):
         # a batch moving some tasks forward
@@ -90,7 +91,15 @@ def gen(rng, tier):
                 # the application takes the pilot out of the task manager
                 # before it ends: its tasks stay bound to it
                 ops.append(['remove', p])
-            ops.append(['die', p, rng.choice(FINAL), racy])
+            fin = rng.choice(FINAL)
+            ops.append(['die', p, fin, racy])
+            # the message which reports this end may first list a pilot which
+            # FAILED earlier, now as CANCELED (what the launcher publishes
+            # when the application cancels all its pilots after a failure)
+            if failed_before and rng.random() < 0.4:
+                ops[-1].append(rng.choice(failed_before))
+            if fin == rps.FAILED:
+                failed_before.append(p)
             if not racy:
                 ops.append(['sync'])
     ops.append(['sync'])
@@ -279,15 +288,22 @@ def run(seed, scenario, trace=None, tier='quick'):
                             for k, ent in ents:
                                 p._callbacks[C.rpc.PILOT_STATE][k] = ent
                 elif op[0] == 'die':
-                    _, p, state, racy = op
+                    _, p, state, racy = op[:4]
+                    again = op[4] if len(op) > 4 else None
                     if racy:
                         # notifications of this window may overlap the death
                         st['window'] = True
                         st['ambiguous'] |= st['since_sync']
                     if p < len(pids):
                         sim.fault('pilot_death')
-                        pub.put(C.rpc.STATE_PUBSUB, {'cmd': 'update', 'arg': [
-                            {'uid': pids[p], 'type': 'pilot', 'state': state}]})
+                        arg = [{'uid': pids[p], 'type': 'pilot',
+                                'state': state}]
+                        if again is not None and again < len(pids):
+                            sim.probe('failed_pilot_reported_canceled')
+                            arg.insert(0, {'uid': pids[again], 'type': 'pilot',
+                                           'state': rps.CANCELED})
+                        pub.put(C.rpc.STATE_PUBSUB, {'cmd': 'update',
+                                                     'arg': arg})
                         if sc.get('cb_race'):
                             def app(pilot=pilots[p], race=sc['cb_race']):
                                 sim.sleep(race['at'])
